@@ -78,6 +78,7 @@ M11_RepBounds == \A i \in 1..Len(K) : K[i].f = "rep" => (K[i].e.max < 0 \/ K[i].
 
 \* M10 (C11): well-founded grammars terminate (checked under FairSpec)
 Terminates == <>(Halted)
+TerminatesDone == <>(pc = "done")
 NeverOverflows == pc # "overflow"
 
 --------------------------------------------------------------------------
